@@ -37,6 +37,8 @@ pub trait ToR { spec fn to_real(self) -> real; }
 impl ToR for usize { open spec fn to_real(self) -> real { self as int as real } }
 impl ToR for f64 { open spec fn to_real(self) -> real { f64_real(self) } }
 
+// real division, named so that lemmas can trigger on it
+pub open spec fn rdiv(a: real, b: real) -> real { a / b }
 pub open spec fn r_abs(x: real) -> real { if x >= 0real { x } else { -x } }
 pub open spec fn r_clamp(x: real, lo: real, hi: real) -> real { if x < lo { lo } else if x > hi { hi } else { x } }
 pub open spec fn r_signum(x: real) -> real { if x > 0real { 1real } else if x < 0real { -1real } else { r_signum0() } }
@@ -75,7 +77,7 @@ impl MulSpecImpl<R> for R { open spec fn obeys_mul_spec() -> bool { true } open 
     open spec fn mul_spec(self, rhs: R) -> R { R { g: Ghost(self.v() * rhs.v()) } } }
 impl std::ops::Mul for R { type Output = R; #[verifier::external_body] fn mul(self, rhs: R) -> R { unimplemented!() } }
 impl DivSpecImpl<R> for R { open spec fn obeys_div_spec() -> bool { true } open spec fn div_req(self, rhs: R) -> bool { rhs.v() != 0real }
-    open spec fn div_spec(self, rhs: R) -> R { R { g: Ghost(self.v() / rhs.v()) } } }
+    open spec fn div_spec(self, rhs: R) -> R { R { g: Ghost(rdiv(self.v(), rhs.v())) } } }
 impl std::ops::Div for R { type Output = R; #[verifier::external_body] fn div(self, rhs: R) -> R { unimplemented!() } }
 impl NegSpecImpl for R { open spec fn obeys_neg_spec() -> bool { true } open spec fn neg_req(self) -> bool { true }
     open spec fn neg_spec(self) -> R { R { g: Ghost(-self.v()) } } }
